@@ -1043,6 +1043,7 @@ def run_family(ctx, fam, cases, stats):
             reported = set(cid for cid, dev, detail in res["lines"])
             stats["judged_cases"] += sum(1 for cid, v in res["judged"].items() if v > 0 or cid in reported)
             stats["fam_" + fam] = stats.get("fam_" + fam, 0) + res["ncases"]
+            stats["famevals_" + fam] = stats.get("famevals_" + fam, 0) + res["evals"]
             for cid, stage, st, last in res["rejected"]:
                 stats["rejected"] += 1
                 real = cid[6:] if cid.startswith("batch:") else cid
@@ -1096,6 +1097,8 @@ def run(ctx):
     for k, v in stats.items():
         if k.startswith("fam_"):
             ctx.cover(**{"cases_" + k[4:]: v})
+        if k.startswith("famevals_"):
+            ctx.cover(**{"evaluations_" + k[9:]: v})
     if ctx.exhaustive and not only and stats["judged_cases"] + stats["rejected"] < stats["cases"]:
         raise core.HarnessError("vacuous: %d of %d cases neither judged nor rejected" % (stats["cases"] - stats["judged_cases"] - stats["rejected"], stats["cases"]))
     if stats["evals"] == 0:
